@@ -301,6 +301,8 @@ def _zexpr(node, env, where) -> str:
     if isinstance(node, ast.Name) and node.id in env:
         return env[node.id]
     if isinstance(node, ast.UnaryOp) and isinstance(node.op, ast.USub):
+        if isinstance(node.operand, ast.Constant) and isinstance(node.operand.value, int):
+            return core.coq_z(-node.operand.value)
         return f"(- {_zexpr(node.operand, env, where)})"
     if isinstance(node, ast.BinOp) and type(node.op) in (ast.Add, ast.Sub, ast.Mult):
         o = {ast.Add: "+", ast.Sub: "-", ast.Mult: "*"}[type(node.op)]
